@@ -74,9 +74,34 @@ class A(Adapter):
                 return Sokoban(generator=gens[gen](),
                                reward_fn=DenseReward() if dense else SparseReward(), time_limit=tl)
             out.append(Config(f"sokoban-{gen}-{'dense' if dense else 'sparse'}-tl{tl}", build,
-                              {"n": int(GRID_SIZE), "time_limit": tl, "dense": dense, "f32": True},
+                              {"n": int(GRID_SIZE), "time_limit": tl, "dense": dense, "f32": True, "gen": gen},
                               gen=gen, dense=dense, time_limit=tl, constant_generator=(gen == "simple")))
         return out
+
+    # ---- C10: the reset states of the transliterated generators (ToyGenerator, SimpleSolveGenerator) must be judged by
+    # `matches_generator` (the Lean transliteration `toyGenerate` / `simpleGenerate` produces exactly this state) and
+    # every level of the transliteration must be met
+    N_LEVELS = {"toy": 2, "simple": 1}
+
+    def instance_extra(self, ctx, cfg, env, runner, rng, drv, seeds):
+        import jax
+
+        gen = cfg.meta["gen"]
+        if gen not in self.N_LEVELS:
+            return
+        js = [self.ser_state(env, runner.reset(jax.random.PRNGKey(sd))[0]) for sd in seeds[:24]]
+        reps = drv.batch([dict(op="sokoban.instance", cfg=cfg.cfg, state=j) for j in js])
+        seen = set()
+        for sd, j, v in zip(seeds, js, reps):
+            ctx.evaluations += 1
+            if isinstance(v, DriverError) or "matches_generator" not in v or "level_cert" not in v:
+                ctx.disagree(self.name, f"sokoban.instance gives no verdict on a level of the {gen} generator: {v}",
+                             {"config": cfg.cid, "seed": sd})
+                continue
+            seen.add(str(j["variable_grid"]) + str(j["fixed_grid"]))
+        if len(js) >= 16 and len(seen) != self.N_LEVELS[gen]:
+            ctx.fail(self.name, "instance:levels_met", f"the {gen} generator produced {len(seen)} different levels, "
+                     f"the transliteration has {self.N_LEVELS[gen]}", {"env": self.name, "config": cfg.cid, "seeds": seeds[:24]})
 
     # ---- serialisation
     def ser_state(self, env, s):
@@ -229,3 +254,10 @@ class A(Adapter):
             if int(ts.step_type) != 2 or not self.completed(env, s, ts):
                 ctx.fail(self.name, "solution_not_recognised", "the scripted solution of the SimpleSolve level does not end the episode",
                          {"env": self.name, "config": cfg.cid})
+            # `step` is not absorbing: steps taken from the solved state (the model pays the solved bonus on every step whose
+            # successor is solved, `sokoban_episode_return` / `…_literal_witness`): Down and Up walk (still solved),
+            # the second Up pushes a box off its target
+            for a in [2, 0, 0, 2]:
+                s2, ts2 = runner.step(s, np.int32(a))
+                self._check(ctx, cfg, env, drv, s, a, s2, ts2, "after_solved")
+                s, ts = s2, ts2
